@@ -40,6 +40,7 @@ func reuseSig(what, cfg string, use int, op string, typ common.TokenType) string
 }
 
 func reuseMatrix(r *ev.Run, kind storeKind, gran string, ks ksrig.FullKeyStore) {
+	violation := func(sig string, d interface{}) { r.Violation(storeSig(kind.name(), sig), d) } // Redis variants: signatures start with "redis "
 	t0 := time.Now()
 	defer func() { r.Count("wall_ms_in_reuse_matrix", time.Since(t0).Milliseconds()) }() // cost accounting only
 	cfg := cfgName(kind, gran)
@@ -50,6 +51,9 @@ func reuseMatrix(r *ev.Run, kind storeKind, gran string, ks ksrig.FullKeyStore) 
 		return
 	}
 	defer g.discard()
+	if kind.redis {
+		g.srv.SetLogging(true)
+	}
 	rng := gen.New(r.Seed, "c10-reuse-matrix-"+kind.name()) // the same values under every granularity
 	var rows []interface{}
 	for ti, typ := range allTypes {
@@ -74,16 +78,16 @@ func reuseMatrix(r *ev.Run, kind storeKind, gran string, ks ksrig.FullKeyStore) 
 				tok, problem, err, pan := guarded(func() (tval, string, error) { return g.tokenize(tl, consistent, ctx, v) })
 				switch {
 				case pan != nil:
-					r.Violation(fmt.Sprintf("panic in tokenize: layer=%s type=%s len=%s site=%s class=%s", layerNames[tl], typeName(typ), v.lenClass(), pan.site, pan.class), det(0, "tokenize", tl, map[string]interface{}{"stack": pan.stack}))
+					violation(fmt.Sprintf("panic in tokenize: layer=%s type=%s len=%s site=%s class=%s", layerNames[tl], typeName(typ), v.lenClass(), pan.site, pan.class), det(0, "tokenize", tl, map[string]interface{}{"stack": pan.stack}))
 					continue
 				case err != nil && tokenSpaceSmall(v):
 					r.Count("reuse_matrix_small_space_tokenize_refused", 1)
 					continue
 				case err != nil:
-					r.Violation(fmt.Sprintf("unexpected error: op=tokenize layer=%s type=%s len=%s mode=%s encrypting-wrapper=%v class=%s", layerNames[tl], typeName(typ), v.errLenClass(), modeName(consistent), kind.enc, errClass(err)), det(0, "tokenize", tl, map[string]interface{}{"error": err.Error()}))
+					violation(fmt.Sprintf("unexpected error: op=tokenize layer=%s type=%s len=%s mode=%s encrypting-wrapper=%v class=%s", layerNames[tl], typeName(typ), v.errLenClass(), modeName(consistent), kind.enc, errClass(err)), det(0, "tokenize", tl, map[string]interface{}{"error": err.Error()}))
 					continue
 				case problem != "":
-					r.Violation(fmt.Sprintf("format: %s: layer=%s type=%s", problem, layerNames[tl], typeName(typ)), det(0, "tokenize", tl, nil))
+					violation(fmt.Sprintf("format: %s: layer=%s type=%s", problem, layerNames[tl], typeName(typ)), det(0, "tokenize", tl, nil))
 					continue
 				}
 				checkTokenFormat(r, tl, v, tok, det(0, "tokenize", tl, map[string]interface{}{"token": tok.full()}))
@@ -97,19 +101,30 @@ func reuseMatrix(r *ev.Run, kind storeKind, gran string, ks ksrig.FullKeyStore) 
 					}
 					failed = true
 					extra["token"] = tok.full()
-					r.Violation(reuseSig(what, cfg, use, op, typ), det(use, op, l, extra))
+					violation(reuseSig(what, cfg, use, op, typ), det(use, op, l, extra))
 				}
 				for round := 0; round < 3; round++ {
 					// owner detokenize
 					use++
 					dl := detokLayers[(vi+ci+ti+round)%len(detokLayers)]
 					before := g.boltTxID()
+					logFrom := 0
+					if kind.redis {
+						logFrom = g.srv.LogLen()
+					}
 					out, dprob, derr, dpan := guarded(func() (tval, string, error) { return g.detokenize(dl, ctx, tok) })
 					if kind.bolt {
 						if g.boltTxID() > before {
 							r.Count("reuse_matrix_boltdb_reads_that_wrote_the_record_back:granularity="+granName(gran), 1)
 						} else {
 							r.Count("reuse_matrix_boltdb_reads_without_a_write:granularity="+granName(gran), 1)
+						}
+					}
+					if kind.redis { // Redis: a Get that refreshed the access time issued SET .. XX after the GET
+						if w, _, _ := redisLogStats(g.srv, logFrom); w > 0 {
+							r.Count("reuse_matrix_redis_reads_that_wrote_the_record_back:granularity="+granName(gran), 1)
+						} else {
+							r.Count("reuse_matrix_redis_reads_without_a_write:granularity="+granName(gran), 1)
 						}
 					}
 					r.Count("reuse_matrix_uses_judged", 1)
